@@ -41,10 +41,26 @@ func ruleS1(c *Ctx) {
 		{"PluginSyncBlock", "Unblock", false, 'R'},
 	} {
 		f := m.method(pkgAdapt, w.typ, w.fn)
-		var ops []*lockOp
+		// the lock operations of f: made directly, or by a helper whose whole effect is that operation
+		type lop struct {
+			ID      lockID
+			Acquire bool
+		}
+		var ops []lop
 		for _, ci := range calls(f) {
 			if op := la.lockOpOf(ci.Common()); op != nil {
-				ops = append(ops, op)
+				ops = append(ops, lop{op.ID, op.Acquire})
+				continue
+			}
+			if g := m.callee(ci.Common()); g != nil && la.scope[g] {
+				if eff := la.summarise(g); eff != nil {
+					for id := range eff.acquires {
+						ops = append(ops, lop{id, true})
+					}
+					for id := range eff.releases {
+						ops = append(ops, lop{id, false})
+					}
+				}
 			}
 		}
 		ok1 := len(ops) == 1 && ops[0].ID.Name == "Adaptation.syncLock" && ops[0].ID.Mode == w.mode && ops[0].Acquire == w.acq
@@ -91,11 +107,8 @@ func ruleS1(c *Ctx) {
 	// Unblock: release guarded by b.r != nil, followed by b.r = nil
 	ub := m.method(pkgAdapt, "PluginSyncBlock", "Unblock")
 	okG, okC := false, false
-	for _, ci := range calls(ub) {
-		op := la.lockOpOf(ci.Common())
-		if op == nil {
-			continue
-		}
+	_, ubRel, _ := syncGateOps(la, ub)
+	for _, ci := range ubRel {
 		for _, cd := range controls(ci.Block()) {
 			cd = normCond(cd)
 			if bo, ok := cd.V.(*ssa.BinOp); ok && isNilConst(bo.Y) && ((bo.Op == token.NEQ && cd.Pol) || (bo.Op == token.EQL && !cd.Pol)) {
